@@ -16,6 +16,7 @@ import (
 
 	"github.com/hashicorp/go-plugin/internal/grpcmux"
 	"github.com/hashicorp/go-plugin/internal/plugin"
+	"github.com/hashicorp/go-plugin/internal/verifhook"
 	"github.com/hashicorp/go-plugin/runner"
 
 	"github.com/oklog/run"
@@ -310,6 +311,7 @@ func newGRPCBroker(s streamer, tls *tls.Config, unixSocketCfg UnixSocketConfig, 
 func (b *GRPCBroker) Accept(id uint32) (net.Listener, error) {
 	if b.muxer.Enabled() {
 		p := b.getServerStream(id)
+		verifhook.Point("grpc.accept.slot", b, int64(id), 0)
 
 		// Register the listener before we start acknowledging knocks for it,
 		// otherwise a knock that is already pending can be acknowledged while
@@ -318,6 +320,7 @@ func (b *GRPCBroker) Accept(id uint32) (net.Listener, error) {
 		if err != nil {
 			return nil, err
 		}
+		verifhook.Point("grpc.accept.listener", b, int64(id), 0)
 
 		go func() {
 			err := b.listenForKnocks(id)
@@ -325,6 +328,7 @@ func (b *GRPCBroker) Accept(id uint32) (net.Listener, error) {
 				log.Printf("[ERR]: error listening for knocks, id: %d, error: %s", id, err)
 			}
 		}()
+		verifhook.Point("grpc.accept.lfk", b, int64(id), 0)
 
 		ln = &rmListener{
 			Listener: ln,
@@ -352,6 +356,7 @@ func (b *GRPCBroker) Accept(id uint32) (net.Listener, error) {
 	if err != nil {
 		return nil, err
 	}
+	verifhook.Point("grpc.accept.listening", b, int64(id), 0)
 
 	advertiseNet := listener.Addr().Network()
 	advertiseAddr := listener.Addr().String()
@@ -367,8 +372,10 @@ func (b *GRPCBroker) Accept(id uint32) (net.Listener, error) {
 		Address:   advertiseAddr,
 	})
 	if err != nil {
+		verifhook.Point("grpc.accept.sent", b, int64(id), 0)
 		return nil, err
 	}
+	verifhook.Point("grpc.accept.sent", b, int64(id), 1)
 
 	return listener, nil
 }
@@ -450,11 +457,13 @@ func (b *GRPCBroker) listenForKnocks(id uint32) error {
 			}
 
 			// Successful knock, open the door for the given ID.
+			verifhook.Point("grpc.lfk.took", b, int64(id), 0)
 			var ackError string
 			err := b.muxer.AcceptKnock(id)
 			if err != nil {
 				ackError = err.Error()
 			}
+			verifhook.Point("grpc.lfk.accepted", b, int64(id), verifhook.B(err == nil))
 
 			// Send back an acknowledgement to allow the client to start dialling.
 			err = b.streamer.Send(&plugin.ConnInfo{
@@ -468,6 +477,7 @@ func (b *GRPCBroker) listenForKnocks(id uint32) error {
 			if err != nil {
 				return fmt.Errorf("error sending back knock acknowledgement: %w", err)
 			}
+			verifhook.Point("grpc.lfk.acked", b, int64(id), verifhook.B(ackError == ""))
 		case <-p.doneCh:
 			return nil
 		}
@@ -485,11 +495,13 @@ func (b *GRPCBroker) knock(id uint32) error {
 	if err != nil {
 		return err
 	}
+	verifhook.Point("grpc.knock.sent", b, int64(id), 0)
 
 	// Wait for the ack.
 	p := b.getClientStream(id)
 	select {
 	case msg := <-p.ch:
+		verifhook.Point("grpc.knock.ack", b, int64(id), verifhook.B(msg.Knock != nil && msg.Knock.Error == ""))
 		if msg.ServiceId != id {
 			return fmt.Errorf("handshake failed for multiplexing on id %d; got response for %d", id, msg.ServiceId)
 		}
@@ -500,6 +512,7 @@ func (b *GRPCBroker) knock(id uint32) error {
 			return fmt.Errorf("failed to knock for id %d: %s", id, msg.Knock.Error)
 		}
 	case <-time.After(5 * time.Second):
+		verifhook.Point("grpc.knock.timeout", b, int64(id), 0)
 		return fmt.Errorf("timeout waiting for multiplexing knock handshake on id %d", id)
 	}
 
@@ -521,6 +534,7 @@ func (b *GRPCBroker) muxDial(id uint32) func(string, time.Duration) (net.Conn, e
 		if err != nil {
 			return nil, err
 		}
+		verifhook.Point("grpc.muxdial.opened", b, int64(id), 0)
 
 		return conn, nil
 	}
@@ -539,10 +553,13 @@ func (b *GRPCBroker) DialWithOptions(id uint32, opts ...grpc.DialOption) (conn *
 
 	// Open the stream
 	p := b.getClientStream(id)
+	verifhook.Point("grpc.dial.slot", b, int64(id), 0)
 	select {
 	case c = <-p.ch:
+		verifhook.Point("grpc.dial.took", b, int64(id), int64(c.ServiceId))
 		close(p.doneCh)
 	case <-time.After(5 * time.Second):
+		verifhook.Point("grpc.dial.timeout", b, int64(id), 0)
 		return nil, fmt.Errorf("timeout waiting for connection info")
 	}
 
@@ -593,6 +610,7 @@ func (m *GRPCBroker) Run() {
 		}
 
 		// Initialize the waiter
+		verifhook.Point("grpc.run.recv", m, int64(msg.ServiceId), verifhook.B(msg.Knock != nil))
 		var p *gRPCBrokerPending
 		if msg.Knock != nil && msg.Knock.Knock && !msg.Knock.Ack {
 			p = m.getServerStream(msg.ServiceId)
@@ -604,7 +622,9 @@ func (m *GRPCBroker) Run() {
 		}
 		select {
 		case p.ch <- msg:
+			verifhook.Point("grpc.run.park", m, int64(msg.ServiceId), 1)
 		default:
+			verifhook.Point("grpc.run.park", m, int64(msg.ServiceId), 0)
 		}
 	}
 }
@@ -616,6 +636,7 @@ func (m *GRPCBroker) getClientStream(id uint32) *gRPCBrokerPending {
 	defer m.Unlock()
 
 	p, ok := m.clientStreams[id]
+	verifhook.Point("grpc.getclientstream", m, int64(id), verifhook.B(ok))
 	if ok {
 		return p
 	}
@@ -658,4 +679,5 @@ func (m *GRPCBroker) timeoutWait(id uint32, p *gRPCBrokerPending) {
 
 	// Delete the stream so no one else can grab it
 	delete(m.clientStreams, id)
+	verifhook.Point("grpc.tw.deleted", m, int64(id), 0)
 }
